@@ -45,11 +45,13 @@ pub assume_specification[ <usize as core::convert::From<bool>>::from ](b: bool) 
     ensures r == (if b { 1usize } else { 0usize }),
 ;
 
+#[derive(Clone, Copy)]
 pub struct BitMask {
     pub lanes: Ghost<Seq<bool>>,
     pub lz: usize,
     pub tz: usize,
 }
+#[derive(Clone, Copy)]
 pub struct Group {
     pub bytes: Ghost<Seq<u8>>,
     pub m_empty_lz: usize,
